@@ -88,3 +88,162 @@ Proof. intros. apply Ev_const. intros f. eapply climb_stops; eauto. Qed.
 
 Definition starts_expr (t : tok) : bool :=
   match t with TName _ | TConst _ | TUn _ | TLambda _ | TLP | TLB | TFBegin => true | _ => false end.
+
+(* ------------------------------------------------------------------ how low an unparenthesised expression is open on its right *)
+
+(* level at which the text of a node of this kind is still open at its right end (None: it ends with a closing token) *)
+Definition open_level (k : kind) : option nat :=
+  match k with
+  | KLambda => Some (req KLambda 0)
+  | KIfExp => Some (req KIfExp 2)
+  | KCompare => Some (prec KCompare)
+  | _ => if is_bool k then Some (prec k)
+         else if is_unary k then Some (req k 0)
+         else if is_binary k then Some (req k 1)
+         else None
+  end.
+
+Definition last_pos (k : kind) : nat := match k with KIfExp => 2 | _ => if is_binary k then 1 else 0 end.
+
+(* a lower bound of the open level that depends on the kind only *)
+Definition lowopen (k : kind) : nat :=
+  match k with
+  | KLambda | KIfExp => 0 | KOr => 1 | KAnd => 2 | KNot => 3 | KCompare => 4
+  | KBitOr => 6 | KBitXor => 7 | KBitAnd => 8 | KLShift | KRShift => 9 | KAdd | KSub => 10
+  | KMult | KDiv | KFloorDiv | KMod | KUSub | KUAdd | KInvert | KPow => 11
+  | _ => 14
+  end.
+
+(* level of the token that follows the first child of these kinds *)
+Definition follow0 (k : kind) : nat := match k with KAttribute | KCall | KSubscript => 13 | _ => prec k end.
+
+Require Import PonyV.Proofs.C04Kinds.
+
+Lemma lowopen_facts : forall k c,
+  match open_level k with
+  | None => true
+  | Some r => (lowopen k <=? r) && implb (allowed k (last_pos k) c && (req k (last_pos k) <=? prec c)) (lowopen k <=? lowopen c)
+  end = true.
+Proof. apply all_kinds2. vm_compute. reflexivity. Qed.
+
+Lemma lowopen_le_14 : forall k, lowopen k <= 14.
+Proof. destruct k; simpl; lia. Qed.
+
+(* an unparenthesised first child is not open as low as the token that follows it *)
+Lemma follow0_facts : forall k c,
+  implb ((is_bool k || is_binary k || kind_eqb k KCompare || kind_eqb k KIfExp || kind_eqb k KAttribute || kind_eqb k KCall || kind_eqb k KSubscript)
+         && allowed k 0 c && (req k 0 <=? prec c)) (follow0 k <? lowopen c) = true.
+Proof. apply all_kinds2. vm_compute. reflexivity. Qed.
+
+(* positions that hold expressions only *)
+Lemma allowed_expr_facts : forall k c,
+  implb (allowed k 0 c && negb (kind_eqb k KTuple || kind_eqb k KList || kind_eqb k KIdxTuple || kind_eqb k KJoined)) (expr_kindb c) = true
+  /\ implb (allowed k 1 c && negb (kind_eqb k KCall || kind_eqb k KSubscript)) (expr_kindb c) = true
+  /\ implb (allowed k 2 c) (expr_kindb c) = true.
+Proof.
+  intros k c. repeat split.
+  - revert k c. apply all_kinds2. vm_compute. reflexivity.
+  - revert k c. apply all_kinds2. vm_compute. reflexivity.
+  - revert k c. apply all_kinds2. vm_compute. reflexivity.
+Qed.
+
+Section RoundTrip.
+Variable st : style.
+
+Fixpoint rmin (e : expr) : nat :=
+  match e with Node l cs =>
+    match open_level (kind_of l) with
+    | None => 14
+    | Some r =>
+        Nat.min r ((fix lastv (cs : list expr) : nat :=
+                      match cs with
+                      | [] => 14
+                      | c :: cs' => match cs' with
+                                    | [] => if needs st (kind_of l) (last_pos (kind_of l)) (ekind c) then 14 else rmin c
+                                    | _ => lastv cs'
+                                    end
+                      end) cs)
+    end
+  end.
+
+Definition lastv (k : kind) : list expr -> nat :=
+  fix lastv (cs : list expr) : nat :=
+    match cs with
+    | [] => 14
+    | c :: cs' => match cs' with
+                  | [] => if needs st k (last_pos k) (ekind c) then 14 else rmin c
+                  | _ => lastv cs'
+                  end
+    end.
+
+Lemma rmin_node : forall l cs,
+  rmin (Node l cs) = match open_level (kind_of l) with None => 14 | Some r => Nat.min r (lastv (kind_of l) cs) end.
+Proof. reflexivity. Qed.
+
+(* printed child *)
+Definition pw (k : kind) (q : nat) (c : expr) : list tok := wrap (needs st k q (ekind c)) (print st c).
+
+Lemma print_node : forall l cs, print st (Node l cs) = layout st l (wrap_children (print st) st (kind_of l) 0 cs).
+Proof. reflexivity. Qed.
+
+Lemma wrap_children_cons : forall k i c cs,
+  wrap_children (print st) st k i (c :: cs) = pw k (pos_of k i) c :: wrap_children (print st) st k (S i) cs.
+Proof. reflexivity. Qed.
+
+Lemma wrap_children_const : forall k q cs i, (forall j, i <= j -> pos_of k j = q) ->
+  wrap_children (print st) st k i cs = map (pw k q) cs.
+Proof.
+  intros k q cs. induction cs as [|c cs IH]; intros i H; [reflexivity|].
+  rewrite wrap_children_cons. simpl. rewrite (H i) by lia. f_equal. apply IH. intros j Hj. apply H. lia.
+Qed.
+
+(* ------------------------------------------------------------------ unpacking `good` *)
+
+Lemma good_node : forall l cs, good st (Node l cs) = true ->
+  arity_ok l (length cs) = true /\ children_allowed (kind_of l) 0 cs = true /\ covers_children st (kind_of l) 0 cs = true
+  /\ Forall (fun c => good st c = true) cs
+  /\ (keep_spec st = true \/ match l with LFormatted _ (Some _) => False | _ => True end).
+Proof.
+  intros l cs H. unfold good in H. apply andb_prop in H. destruct H as [H Hs]. apply andb_prop in H. destruct H as [Hw Hc].
+  simpl in Hw, Hc. apply andb_prop in Hw. destruct Hw as [Hw Hw3]. apply andb_prop in Hw. destruct Hw as [Hw1 Hw2].
+  apply andb_prop in Hc. destruct Hc as [Hc1 Hc2].
+  split; [exact Hw1|]. split; [exact Hw2|]. split; [exact Hc1|]. split.
+  - rewrite forallb_forall in Hw3, Hc2. apply Forall_forall. intros c Hin. unfold good.
+    rewrite (Hw3 c Hin), (Hc2 c Hin). simpl. unfold spec_ok in *. destruct (keep_spec st); [reflexivity|]. simpl in *.
+    apply andb_prop in Hs. destruct Hs as [_ Hs]. rewrite forallb_forall in Hs. exact (Hs c Hin).
+  - unfold spec_ok in Hs. destruct (keep_spec st); [left; reflexivity|right]. simpl in Hs. apply andb_prop in Hs. destruct Hs as [Hs _].
+    destruct l; try exact I. destruct spec; [discriminate Hs|exact I].
+Qed.
+
+Lemma children_allowed_const : forall k q cs i, (forall j, i <= j -> pos_of k j = q) ->
+  children_allowed k i cs = true -> Forall (fun c => allowed k q (ekind c) = true) cs.
+Proof.
+  intros k q cs. induction cs as [|c cs IH]; intros i H Ha; constructor.
+  - simpl in Ha. apply andb_prop in Ha. destruct Ha as [Ha _]. rewrite (H i) in Ha by lia. exact Ha.
+  - simpl in Ha. apply andb_prop in Ha. destruct Ha as [_ Ha]. apply (IH (S i)); [|exact Ha]. intros j Hj. apply H. lia.
+Qed.
+
+Lemma covers_children_const : forall k q cs i, (forall j, i <= j -> pos_of k j = q) ->
+  covers_children st k i cs = true -> Forall (fun c => child_ok st k q (ekind c) = true) cs.
+Proof.
+  intros k q cs. induction cs as [|c cs IH]; intros i H Ha; constructor.
+  - simpl in Ha. apply andb_prop in Ha. destruct Ha as [Ha _]. rewrite (H i) in Ha by lia. exact Ha.
+  - simpl in Ha. apply andb_prop in Ha. destruct Ha as [_ Ha]. apply (IH (S i)); [|exact Ha]. intros j Hj. apply H. lia.
+Qed.
+
+(* a child the style leaves bare has at least the level its position is parsed at *)
+Lemma bare_prec : forall k q c, child_ok st k q c = true -> allowed k q c = true -> needs st k q c = false -> req k q <= prec c.
+Proof.
+  intros k q c Hc Ha Hn. unfold child_ok in Hc. apply andb_prop in Hc. destruct Hc as [Hc _].
+  rewrite Hn in Hc. unfold ref_needs in Hc. rewrite Ha in Hc. simpl in Hc.
+  destruct (prec c <? req k q) eqn:E; [discriminate Hc|]. apply Nat.ltb_ge in E. exact E.
+Qed.
+
+(* an item is never parenthesised *)
+Lemma item_bare : forall k q c, child_ok st k q c = true -> expr_kindb c = false -> needs st k q c = false.
+Proof.
+  intros k q c Hc He. unfold child_ok in Hc. apply andb_prop in Hc. destruct Hc as [_ Hc].
+  rewrite He in Hc. simpl in Hc. apply negb_true_iff in Hc. exact Hc.
+Qed.
+
+End RoundTrip.
